@@ -10,7 +10,6 @@ CONSTANTS
   ErrKinds = {"full", "empty"}
 INVARIANT DumpWireInv
 INVARIANT InvEmptyErrorRoundTrip
-INVARIANT InvNoSilentOrKnown
 INVARIANT InvRejectExact
 INVARIANT InvNoDecodeError
 INVARIANT InvEveryNestedWrapped
